@@ -388,7 +388,10 @@ class StridedInterval:
                 straddling = True
 
         if straddling:
-            a_upper_bound = north_pole_left - ((north_pole_left - self.lower_bound) % self.stride)
+            # the last member before the pole: the distance is walked upwards from the lower bound, which may lie
+            # beyond the pole (an interval that also wraps past zero), so it is a distance on the circle
+            distance = self._modular_sub(north_pole_left, self.lower_bound, self.bits)
+            a_upper_bound = self._modular_sub(north_pole_left, distance % self.stride, self.bits)
             a = StridedInterval(
                 bits=self.bits,
                 stride=self.stride,
@@ -397,7 +400,7 @@ class StridedInterval:
                 uninitialized=self.uninitialized,
             )
 
-            b_lower_bound = a_upper_bound + self.stride
+            b_lower_bound = self._modular_add(a_upper_bound, self.stride, self.bits)
             b = StridedInterval(
                 bits=self.bits,
                 stride=self.stride,
